@@ -36,6 +36,12 @@ impl Vm {
     source: &Source,
     file_id: VmFileId,
   ) -> FeResult<ObjRef<Fun>> {
+    // a module keeps its id whether or not it compiles, the caches of modules loaded later
+    // are found by their ids
+    while self.inline_cache.len() <= module.id() {
+      self.inline_cache.push(InlineCache::new(0, 0));
+    }
+
     let (ast, line_offsets) = Parser::new(source, file_id).parse();
     self
       .files
